@@ -7,6 +7,8 @@ JSON-lines driver of the C11 model.
                                              the last one repeats
         "wvals":  [[n, v], …],               value of workflow n when all its nodes succeed
         "skip":   true|false,                true = current load_result (false = pinned commit, D8)
+        "nest":   true|false,                true = workflow NODES get `rerun and propagate_rerun` too (the code)
+        nodes:    [node…] with node = n (task n) | ["w", n, [node…]] (workflow n with its own nodes)
         "locs":   [l, …], "keys": ["t0", "w1", …],   what to print of the store
         "ops":    [["submit", n, root, [ro…], rerun] | ["submitWf", n, [nodes…], root, [ro…], rerun, propagate]
                    | ["plant", loc, key]]}
@@ -33,6 +35,19 @@ def getBool (j : Json) : Except String Bool := j.getBool?
 def subOf (root ro rerun : Json) : Except String Sub := do
   return ⟨← root.getNat?, ← natList ro, ← getBool rerun⟩
 
+partial def nodesOf (js : List Json) : Except String Nodes :=
+  match js with
+  | [] => .ok .nil
+  | j :: rest => do
+    let r ← nodesOf rest
+    match j.getNat? with
+    | .ok n => return .task n r
+    | .error _ =>
+      let a ← j.getArr?
+      if a.size != 3 then throw "node" else
+      if (← a[0]!.getStr?) != "w" then throw "node tag" else
+      return .wf (← a[1]!.getNat?) (← nodesOf (← a[2]!.getArr?).toList) r
+
 def opOfJson (j : Json) : Except String Op := do
   let a ← j.getArr?
   if a.size == 0 then throw "op" else
@@ -42,7 +57,7 @@ def opOfJson (j : Json) : Except String Op := do
     return .submit (← a[1]!.getNat?) (← subOf a[2]! a[3]! a[4]!)
   | "submitWf" =>
     if a.size != 7 then throw "submitWf arity" else
-    return .submitWf (← a[1]!.getNat?) (← natList a[2]!) (← subOf a[3]! a[4]! a[5]!) (← getBool a[6]!)
+    return .submitWf (← a[1]!.getNat?) (← nodesOf (← a[2]!.getArr?).toList) (← subOf a[3]! a[4]! a[5]!) (← getBool a[6]!)
   | "plant" =>
     if a.size != 3 then throw "plant arity" else
     return .plant (← a[1]!.getNat?) (← keyOfStr (← a[2]!.getStr?))
@@ -71,12 +86,12 @@ def stateJ (st : St) (locs : List Loc) (keys : List Key) : List (String × Json)
   [("cells", Json.arr (locs.map (fun l => Json.arr (keys.map (fun k => cellJ (st.store l k))).toArray)).toArray),
    ("execs", Json.arr (keys.map (fun k => toJson (st.execs k))).toArray)]
 
-def traceJ (W : World) (skip : Bool) (locs : List Loc) (keys : List Key) : St → List Op → List Json
+def traceJ (W : World) (skip nest : Bool) (locs : List Loc) (keys : List Key) : St → List Op → List Json
   | _, [] => []
   | st, op :: ops =>
-    let r := step W skip st op
+    let r := step W skip nest st op
     let out := match r.2 with | none => Json.null | some x => resJ x
-    Json.mkObj (("out", out) :: stateJ r.1 locs keys) :: traceJ W skip locs keys r.1 ops
+    Json.mkObj (("out", out) :: stateJ r.1 locs keys) :: traceJ W skip nest locs keys r.1 ops
 
 def pairList {α} (j : Json) (f : Json → Except String α) : Except String (List (Nat × α)) := do
   (← j.getArr?).toList.mapM (fun x => do
@@ -88,11 +103,12 @@ def handle (j : Json) : Json :=
     let bodies ← pairList (← j.getObjVal? "bodies") (fun x => do (← x.getArr?).toList.mapM resOfJson)
     let wvals ← pairList (← j.getObjVal? "wvals") (fun x => x.getNat?)
     let skip ← (← j.getObjVal? "skip").getBool?
+    let nest ← (← j.getObjVal? "nest").getBool?
     let locs ← natList (← j.getObjVal? "locs")
     let keys ← (← getArr j "keys").toList.mapM (fun x => do keyOfStr (← x.getStr?))
     let ops ← (← getArr j "ops").toList.mapM opOfJson
     let W := worldOf bodies wvals
-    return Json.mkObj [("trace", Json.arr (traceJ W skip locs keys St.init ops).toArray)] : Except String Json) with
+    return Json.mkObj [("trace", Json.arr (traceJ W skip nest locs keys St.init ops).toArray)] : Except String Json) with
   | .ok v => v
   | .error e => err e
 
